@@ -1,5 +1,6 @@
 (* C01 — Markup without directives is reproduced unchanged. Theorems only. *)
-From Tpl Require Import Html.Exec Proofs.ScanSpec Proofs.ExecSpec Proofs.ScanConcat Proofs.BuildFlatten Proofs.RenderPlain.
+From Tpl Require Import Html.Exec Proofs.ScanSpec Proofs.ExecSpec Proofs.ScanConcat Proofs.BuildFlatten Proofs.RenderPlain Proofs.TagPrint Proofs.TagPrintTree.
+From Tpl Require Proofs.TagShape.
 Open Scope N_scope.
 
 (* the token values produced by scanning concatenate back to the source exactly *)
@@ -29,6 +30,50 @@ Print Assumptions render_plain.
 Theorem build_shaped : forall to_lower void_elements toks, shaped (build to_lower void_elements toks).
 Proof. exact RenderPlain.build_shaped. Qed.
 Print Assumptions build_shaped.
+
+(* "the only permitted difference being the whitespace that separates the parts inside a tag":
+   (a) a scanned tag, re-printed from its parts, equals its source text up to white space (for every tag token, raw-text
+       close tags like </SCRIPT > included; [no_synth_else] excludes only a value-less directive attribute prefix++"else",
+       which gets the synthetic value "true" and cannot occur in a directive-free document: TagPrint.no_prefix_no_synth) *)
+Theorem tag_print_nonspace : forall is_space to_lower text_tags attr_prefix compile,
+  is_space cSP = true -> is_space cLT = false -> is_space cGT = false ->
+  (forall c, to_lower c = cSLASH -> c = cSLASH) ->
+  forall src toks, scan is_space to_lower text_tags attr_prefix compile src = inl toks ->
+  forall t, In t toks -> t_kind t = KTag -> no_synth_else attr_prefix t ->
+  nsp is_space (print_tag t) = nsp is_space (t_value t).
+Proof. exact TagPrint.tag_print_nonspace. Qed.
+(* (b) exactly: an open tag's source is  <name (blanks attr-name [blanks = blanks value])* blanks >  with the scanned
+       name, attribute names and raw values in order; nothing else occurs in it *)
+Theorem tag_source_shape_open : forall is_space to_lower text_tags attr_prefix compile,
+  is_space cSP = true ->
+  forall src toks, scan is_space to_lower text_tags attr_prefix compile src = inl toks ->
+  forall t, In t toks -> t_kind t = KTag -> prefixb [cSLASH] (t_name t) = false -> no_synth_else attr_prefix t ->
+  exists srcs w, Forall2 (TagShape.attr_src is_space) (t_attrs t) srcs /\ TagShape.allsp is_space w /\ ScanAttrPos.nonsp is_space (t_name t) /\
+    t_value t = (cLT :: t_name t) ++ concat srcs ++ w ++ [cGT].
+Proof. exact TagShape.tag_source_shape_open. Qed.
+(* (c) the printed tree is the concatenation, token by token and in order, of either the token's source text (always for
+       text, comments, CDATA, and for close tags that close an element) or its re-printed form *)
+Theorem print_plain_tokens : forall to_lower void_elements toks,
+  print_plain (build to_lower void_elements toks) = concat (ptoks to_lower void_elements 0 toks) /\
+  Forall2 printed_as toks (ptoks to_lower void_elements 0 toks).
+Proof. exact TagPrintTree.print_plain_tokens. Qed.
+(* (d) hence the render of a directive-free document equals its source up to white space, and every non-tag token is
+       reproduced byte for byte *)
+Theorem render_differs_only_by_space : forall is_space to_lower text_tags attr_prefix compile tree_lower void_elements,
+  is_space cSP = true -> is_space cLT = false -> is_space cGT = false ->
+  (forall c, to_lower c = cSLASH -> c = cSLASH) ->
+  forall src toks, scan is_space to_lower text_tags attr_prefix compile src = inl toks ->
+  (forall t, In t toks -> t_kind t = KTag -> no_synth_else attr_prefix t) ->
+  nsp is_space (print_plain (build tree_lower void_elements toks)) = nsp is_space src /\
+  exists outs, print_plain (build tree_lower void_elements toks) = concat outs /\
+    Forall2 (fun t o => (t_kind t <> KTag -> o = t_value t) /\ nsp is_space o = nsp is_space (t_value t)) toks outs.
+Proof. exact TagPrintTree.render_differs_only_by_space. Qed.
+Print Assumptions tag_print_nonspace.
+Print Assumptions tag_source_shape_open.
+Print Assumptions print_plain_tokens.
+Print Assumptions render_differs_only_by_space.
+(* non-vacuity and necessity: TagPrintExample.render_example_by_theorem (a 12-token document whose render differs from the
+   source, by white space only), TagPrint.cex_else (why no_synth_else), TagPrint.tag_print_needs_slash_reflect *)
 
 (* Non-vacuity: <p a='x'>t<br></p> has no directive and is printed as it is *)
 Example plain_example :
